@@ -90,8 +90,10 @@ Definition known (c : case) : bool :=
   | _ => false
   end.
 
-Definition spec_fail_new (c : case) : bool := spec_fail c && negb (known c).
-Definition spec_fail_known (c : case) : bool := spec_fail c && known c.
+(* a failure counts as the RECORDED finding only when the model - which reproduces that finding - predicts exactly what the
+   implementation did on this case; any further deviation makes it a new failure with this input as the replay *)
+Definition spec_fail_new (c : case) : bool := spec_fail c && negb (known c && negb (mismatch c)).
+Definition spec_fail_known (c : case) : bool := spec_fail c && known c && negb (mismatch c).
 
 Definition nontrivial (c : case) : bool :=
   match c with
